@@ -30,6 +30,7 @@ MCStep == \E c \in Callers :
             /\ act' = [a |-> "step", c |-> c]
             /\ obs' = CASE pc'[c] = "stuck" -> O!ObsStuck(obs, c, pc[c])
                         [] pc[c] = "read" /\ pc'[c] = "idle" -> O!ObsReject(obs, c, res'[c])
+                        [] pc[c] = "count" /\ pc'[c] = "idle" -> O!ObsReject(obs, c, res'[c])
                         [] pc[c] = "count" -> O!ObsAdmit(obs, c)
                         [] pc[c] = "after" -> O!ObsDone(obs, c, plan[c], state')
                         [] OTHER -> Quiet(obs)
